@@ -122,7 +122,7 @@ fn cases(rng: &mut Rng, id: usize) -> Vec<Case> {
     // arbitrary card trees: the front-end must answer, whatever it is
     let tree = prog((0..1 + rng.below(3)).map(|_| random_tree(rng, 4)).collect(), vec![func("f1", &["a"], vec![random_tree(rng, 3)])]);
     v.push(dflt("compile-only", tree, false));
-    match id % 13 {
+    match id % 14 {
         0 => {
             let depth = 300 + rng.below(400);
             let mut c = dflt("call-depth", prog(vec![call("r", vec![int(depth as i64)])],
@@ -209,6 +209,33 @@ fn cases(rng: &mut Rng, id: usize) -> Vec<Case> {
                           card("SetProperty", vec![int(1), read("t"), strlit(&s)]), setg("q", card("GetProperty", vec![read("t"), strlit(&s)]))],
             };
             v.push(dflt("long-strings", prog(body, vec![]), true));
+        }
+        12 => {
+            // value slots filled by cards that produce no value (a Comment, an empty block, an assignment): the instruction finds
+            // fewer operands than it takes - with nothing, one or two values below it on the stack
+            let nothing = |rng: &mut Rng| -> C {
+                match rng.below(4) {
+                    0 => card("Comment", vec![]),
+                    1 => block(vec![]),
+                    2 => setv("z", int(1)),
+                    _ => block(vec![card("Comment", vec![])]),
+                }
+            };
+            let (op, arity) = *rng.pick(&[("SetProperty", 3), ("AppendTable", 2), ("Get", 2), ("GetProperty", 2), ("PopTable", 1), ("Len", 1),
+                                          ("Add", 2), ("Less", 2), ("Not", 1), ("And", 2)]);
+            let mut operands: Vec<C> = vec![];
+            for _ in 0..arity {
+                operands.push(match rng.below(4) {
+                    0 => card("CreateTable", vec![]),
+                    1 => int(1),
+                    _ => nothing(rng),
+                });
+            }
+            let below = rng.below(3);
+            let mut body: Vec<C> = (0..below).map(|i| setv(&format!("l{i}"), int(i as i64))).collect();
+            body.push(card(op, operands));
+            body.push(setg("after", int(1)));
+            v.push(dflt("missing-operands", prog(body, vec![]), true));
         }
         10 => {
             let n = 1 + rng.below(64);
